@@ -28,7 +28,9 @@ REQUIRED = ["el_length", "el_nonneg", "el_total", "el_total_of_edges", "no_layer
             "self_mem_vicinity", "argminFirst_spec", "optMin_spec", "og_result", "og_cost_le_equal_split", "og_total",
             "og_defined", "bestRep_spec", "G_eq_returned_cost", "og_rep_in_group", "og_heights_subset_sorted",
             "og_heights_at_increasing_indices", "og_heights_descending_input", "minfunc_nonneg",
-            "minfunc_eq_zero_iff", "moments_zero", "gctm_out_nonneg"]
+            "minfunc_eq_zero_iff", "moments_zero", "gctm_out_nonneg",
+            "repCost_real", "repCost_zero_layer", "groupSum_zero_layer", "repCost_support",
+            "moving_zero_layer_keeps_sums_and_cost"]
 
 RT = 1e-9          # oracle tolerance on non-exact quantities (moments, costs on float inputs)
 RT_CORR = 1e-11    # model(Float) vs numpy on pow/sum pipelines (summation order, libm/SVML pow)
@@ -446,6 +448,7 @@ def oracle_og(pc, h, p, L, R, np_seed, exact, exact_cost=None, rt32=None):
         # returned layers (each turbulent layer against the returned height of its group) must not exceed the equal split's either.
         # (Seeded change C18-K: the cost kernel skipped zero-strength candidates and left their cost entries at 0, so any group
         # holding an empty bin looked free; only this clause sees it — L layers, the total and the heights stay right.)
+        # Lean: `repCost_zero_layer`, `groupSum_zero_layer`, `moving_zero_layer_keeps_sums_and_cost`, `repCost_support`.
         hf, pf = numpy.asarray(h, dtype=float), numpy.asarray(p, dtype=float)
         pos = [j for j in range(N) if pf[j] > 0]
         cost, j, okp = 0.0, 0, True
